@@ -230,6 +230,10 @@ void reb_read_simulationarchive_from_stream_with_messages(struct reb_simulationa
             for(int64_t i=0;i<nblobsmax;i++){
                 struct reb_binary_field field = {0};
                 sa->offset[i] = ftell(sa->inf);
+                if (i>0){
+                    // A snapshot is stored as the difference to the first one. It has no time field if it was taken at the same time.
+                    sa->t[i] = sa->t[0];
+                }
                 int blob_finished = 0;
                 do{
                     size_t r1 = fread(&field,sizeof(struct reb_binary_field),1,sa->inf);
